@@ -166,7 +166,8 @@ sc_iniparser_getdouble (dictionary * d, const char *key, double notfound,
   errno = 0;
   dbl = strtod (str, NULL);
   if (iserror != NULL) {
-    *iserror = (errno == ERANGE);
+    /* a subnormal result is representable: only overflow and underflow to zero are errors */
+    *iserror = (errno == ERANGE && (dbl == 0. || dbl == HUGE_VAL || dbl == -HUGE_VAL));
   }
   return dbl;
 }
@@ -1603,7 +1604,8 @@ sc_options_parse (int package_id, int err_priority, sc_options_t * opt,
     case SC_OPTION_DOUBLE:
       errno = 0;
       dbl = strtod (optarg, NULL);
-      if (errno == ERANGE) {
+      if (errno == ERANGE && (dbl == 0. || dbl == HUGE_VAL || dbl == -HUGE_VAL)) {
+        /* a subnormal result is representable: only overflow and underflow to zero are errors */
         SC_GEN_LOGF (package_id, SC_LC_GLOBAL, err_priority,
                      "Error parsing double: %s\n", optarg);
         retval = -1;            /* this ends option processing */
